@@ -1,58 +1,122 @@
-(* C08 — the arithmetic cores that panic: num-rational 0.4.2 Ratio<i128>
-   multiplication/addition as used for unit and dimension exponents
-   (arithmetic.rs `Rational = Ratio<i128>`; typed_ast.rs DType::power / try_power,
-   canonicalize; unit.rs / product.rs power), and the factorial operator
-   (bytecode_interpreter.rs `order.get() as u16`, math.rs factorial).
-   i128 overflow is a panic in builds with overflow checks (the profile the check
-   uses); `checked_*` return None instead.  Ratio::new's final gcd reduction is
-   not modelled (it cannot overflow except for i128::MIN).  No proofs here. *)
-From Coq Require Import ZArith List Bool.
+(* C08 — the arithmetic cores that panic.
+
+   num-rational 0.4.2 `Ratio<i128>` (numbat/src/arithmetic.rs: Rational = Exponent =
+   Ratio<i128>) as used for unit and dimension exponents:
+     * unit.rs UnitFactor::power, registry.rs BaseRepresentationFactor::power,
+       typed_ast.rs DType::power:               exponent * e     (impl Mul, plain i128 `*`)
+     * unit.rs / registry.rs Canonicalize::merge: exponent + exponent (impl Add, plain `+`, lcm)
+     * typed_ast.rs DType::try_power:           checked_mul
+     * typed_ast.rs DType::try_canonicalize:    checked_add ;  DType::canonicalize = try_canonicalize().expect(..)
+   An i128 overflow is a panic in builds with overflow checks; `checked_*` return None,
+   which the type checker reports as an error.  Outcomes are three-valued so that
+   "the checked paths never panic" is a statement that can be false.
+   Not modelled: Ratio::new's final gcd reduction (cannot overflow except for
+   i128::MIN), the sort before merging (lists are taken sorted by key).
+   Also here: the factorial operator (bytecode_interpreter.rs `order.get() as u16`,
+   math.rs factorial) and the f64 comparison after a unit conversion that overflows
+   (quantity.rs partial_cmp_preserve_nan), the latter on primitive floats.
+   No proofs in this file. *)
+From Coq Require Import ZArith List Bool PrimFloat.
 Import ListNotations.
 Local Open Scope Z_scope.
 
-Inductive out (A : Type) := Panic | Val (a : A).
-Arguments Panic {A}. Arguments Val {A} a.
+Inductive out (A : Type) := Panic | Overflow | Val (a : A).
+Arguments Panic {A}. Arguments Overflow {A}. Arguments Val {A} a.
+
+Definition bind {A B} (x : out A) (f : A -> out B) : out B :=
+  match x with Panic => Panic | Overflow => Overflow | Val a => f a end.
+Notation "x <- e ;; f" := (bind e (fun x => f)) (at level 61, e at next level, right associativity).
 
 Definition fits (z : Z) : bool := (- 2 ^ 127 <=? z) && (z <? 2 ^ 127).
+
+(* i128 primitives: `a * b`, `a + b` (panic on overflow) and checked_mul / checked_add *)
+Definition i_mul (a b : Z) : out Z := if fits (a * b) then Val (a * b) else Panic.
+Definition i_add (a b : Z) : out Z := if fits (a + b) then Val (a + b) else Panic.
+Definition c_mul (a b : Z) : out Z := if fits (a * b) then Val (a * b) else Overflow.
+Definition c_add (a b : Z) : out Z := if fits (a + b) then Val (a + b) else Overflow.
+
 Definition ratio : Type := (Z * Z)%type.          (* numer, denom; denom > 0 *)
 
-(* a/b * c/d: gcd_ad = gcd(a,d), gcd_bc = gcd(b,c); (a/gcd_ad * (c/gcd_bc)) / (b/gcd_bc * (d/gcd_ad)) *)
-Definition mul_parts (x y : ratio) : Z * Z :=
+(* impl Mul for Ratio:  gcd_ad = gcd(a,d); gcd_bc = gcd(b,c);
+   Ratio::new(a/gcd_ad * (c/gcd_bc), b/gcd_bc * (d/gcd_ad)) *)
+Definition rmul (x y : ratio) : out ratio :=
   let '(a, b) := x in let '(c, d) := y in
   let g1 := Z.gcd a d in let g2 := Z.gcd b c in
-  ((a / g1) * (c / g2), (b / g2) * (d / g1)).
+  n <- i_mul (a / g1) (c / g2) ;; m <- i_mul (b / g2) (d / g1) ;; Val (n, m).
+(* impl CheckedMul for Ratio: the same with checked_mul *)
+Definition rmul_checked (x y : ratio) : out ratio :=
+  let '(a, b) := x in let '(c, d) := y in
+  let g1 := Z.gcd a d in let g2 := Z.gcd b c in
+  n <- c_mul (a / g1) (c / g2) ;; m <- c_mul (b / g2) (d / g1) ;; Val (n, m).
 
-(* impl Mul for Ratio<T>: plain `*` on i128 *)
-Definition rmul (x y : ratio) : out ratio :=
-  let '(n, d) := mul_parts x y in if fits n && fits d then Val (n, d) else Panic.
-(* impl CheckedMul for Ratio<T> *)
-Definition rmul_checked (x y : ratio) : option ratio :=
-  let '(n, d) := mul_parts x y in if fits n && fits d then Some (n, d) else None.
+(* arith_impl!(impl Add): same denominators: numer + numer; else
+   lcm = b.lcm(d) = |b * (d / gcd(b,d))| ; a * (lcm / b) + c * (lcm / d) over lcm *)
+Definition radd (x y : ratio) : out ratio :=
+  let '(a, b) := x in let '(c, d) := y in
+  if b =? d then n <- i_add a c ;; Val (n, d)
+  else l <- i_mul b (d / Z.gcd b d) ;;
+       ln <- i_mul a (Z.abs l / b) ;; rn <- i_mul c (Z.abs l / d) ;;
+       s <- i_add ln rn ;; Val (s, Z.abs l).
+(* checked_arith_impl!(impl CheckedAdd): gcd = gcd(b,d); lcm = (b/gcd).checked_mul(d)?;
+   (lcm/b).checked_mul(a)? ; (lcm/d).checked_mul(c)? ; checked_add *)
+Definition radd_checked (x y : ratio) : out ratio :=
+  let '(a, b) := x in let '(c, d) := y in
+  let g := Z.gcd b d in
+  l <- c_mul (b / g) d ;;
+  ln <- c_mul (l / b) a ;; rn <- c_mul (l / d) c ;;
+  s <- c_add ln rn ;; Val (s, l).
 
-(* a/b + c/d, the branch self.denom == rhs.denom of arith_impl!(Add): numer + numer *)
-Definition radd_same (x y : ratio) : out ratio :=
-  let '(a, b) := x in let '(c, _) := y in if fits (a + c) then Val (a + c, b) else Panic.
+(* ---- products of factors with rational exponents (key = position in a table) *)
+Definition factor : Type := (nat * ratio)%type.
 
-(* typed_ast.rs DType::power: every factor's exponent is multiplied with `*`;
-   DType::try_power: with checked_mul *)
-Fixpoint dpower (fs : list (nat * ratio)) (n : ratio) : out (list (nat * ratio)) :=
+Fixpoint fmap_exp (f : ratio -> out ratio) (fs : list factor) : out (list factor) :=
   match fs with
   | [] => Val []
-  | (f, m) :: r =>
-      match rmul n m, dpower r n with
-      | Val e, Val r' => Val ((f, e) :: r')
-      | _, _ => Panic
-      end
+  | (k, m) :: r => x <- f m ;; r' <- fmap_exp f r ;; Val ((k, x) :: r')
   end.
-Fixpoint dtry_power (fs : list (nat * ratio)) (n : ratio) : option (list (nat * ratio)) :=
+(* UnitFactor::power / BaseRepresentationFactor::power: self.exponent * e *)
+Definition upower (fs : list factor) (e : ratio) := fmap_exp (fun m => rmul m e) fs.
+(* DType::power: n * m ;  DType::try_power: n.checked_mul(m) *)
+Definition dpower (fs : list factor) (n : ratio) := fmap_exp (fun m => rmul n m) fs.
+Definition dtry_power (fs : list factor) (n : ratio) := fmap_exp (fun m => rmul_checked n m) fs.
+
+(* merging neighbours with equal keys of a key-sorted list:
+   Product::canonicalize (merge = `+`) and DType::try_canonicalize (checked_add) *)
+Fixpoint fmerge_with (add : ratio -> ratio -> out ratio) (fs : list factor) : out (list factor) :=
   match fs with
-  | [] => Some []
-  | (f, m) :: r =>
-      match rmul_checked n m, dtry_power r n with
-      | Some e, Some r' => Some ((f, e) :: r')
-      | _, _ => None
+  | [] => Val []
+  | (k, m) :: r =>
+      r' <- fmerge_with add r ;;
+      match r' with
+      | (k', m') :: r'' => if Nat.eqb k k' then s <- add m m' ;; Val ((k, s) :: r'')
+                           else Val ((k, m) :: r')
+      | [] => Val [(k, m)]
       end
   end.
+Definition fmerge := fmerge_with radd.
+Definition ftry_merge := fmerge_with radd_checked.
+
+(* fn canonicalize(&mut self) { self.try_canonicalize().expect("overflow in dimension type exponent computation") } *)
+Definition expect {A} (x : out A) : out A := match x with Overflow => Panic | o => o end.
+
+(* DType::try_multiply / DType::multiply (concatenate, canonicalize) on sorted operands:
+   the concatenation is merged pairwise here, which is what sorting + merging neighbours gives *)
+Definition fconcat_sorted (a b : list factor) : list factor :=
+  (* merge of two key-sorted lists, stable *)
+  (fix go (a : list factor) : list factor -> list factor :=
+     match a with
+     | [] => fun b => b
+     | (ka, ma) :: ra =>
+         fix gob (b : list factor) : list factor :=
+           match b with
+           | [] => (ka, ma) :: ra
+           | (kb, mb) :: rb => if Nat.leb ka kb then (ka, ma) :: go ra b else (kb, mb) :: gob rb
+           end
+     end) a b.
+Definition dtry_multiply (a b : list factor) : out (list factor) := ftry_merge (fconcat_sorted a b).
+Definition dmultiply (a b : list factor) : out (list factor) := expect (dtry_multiply a b).
+(* Unit / BaseRepresentation multiplication: Product::mul -> canonicalize with `+` *)
+Definition pmultiply (a b : list factor) : out (list factor) := fmerge (fconcat_sorted a b).
 
 (* ---------------------------------------------------------------- factorial *)
 (* parser: `order` counts the `!` characters (NonZeroUsize); compiler: `order.get() as u16` *)
@@ -71,3 +135,17 @@ Fixpoint fact_loop (fuel : nat) (x order result : Z) : option Z :=
 
 Definition factorial_dbg (fuel : nat) (x order : Z) : out (option Z) :=
   if order <? 1 then Panic else Val (fact_loop fuel x order 1).
+
+(* ------------------------------------------- comparison after an overflowing conversion *)
+(* quantity.rs partial_cmp_preserve_nan: neither operand is NaN; other.convert_to(self.unit())
+   multiplies by (factor of other's unit) / (factor of self's unit), both computed in f64;
+   self.value.partial_cmp(&converted).expect("unexpectedly got a None partial_cmp from non-NaN arguments") *)
+Local Open Scope float_scope.
+Fixpoint fpow (b : float) (n : nat) : float := match n with O => 1 | S k => b * fpow b k end.
+
+Definition cmp_after_conversion (v_self v_other f_other f_self : float) : out float_comparison :=
+  let converted := v_other * (f_other / f_self) in
+  match PrimFloat.compare v_self converted with
+  | FNotComparable => Panic
+  | c => Val c
+  end.
